@@ -31,7 +31,7 @@ structure Storage where
   constSub : T
 
 /-- float storage -/
-def flS (f : Fmt) : Storage where
+@[reducible] def flS (f : Fmt) : Storage where
   V := Fl
   T := Fl
   conv := id
@@ -47,7 +47,7 @@ def flS (f : Fmt) : Storage where
   constSub := Fl.zero f false    -- `0.0`
 
 /-- exact rational storage (BigRational); also the specification side for the float theorems -/
-def ratS : Storage where
+@[reducible] def ratS : Storage where
   V := Rat
   T := Rat
   conv := id
@@ -66,7 +66,7 @@ def ratS : Storage where
 def ratTrunc (r : Rat) : Int := Int.tdiv r.num r.den
 
 /-- integer storage (BigInt / BigUint / primitive integers while nothing overflows) -/
-def intS : Storage where
+@[reducible] def intS : Storage where
   V := Int
   T := Rat
   conv := fun v => (v : Rat)
@@ -83,7 +83,7 @@ def intS : Storage where
 
 /-- complex storage *as the code is*: the conversion factor of a value is its norm (supplied by the
     caller, `hypot` being a libm function), and `value` re-embeds a real. -/
-def cplxS (f : Fmt) (norm : Fl × Fl → Fl) : Storage where
+@[reducible] def cplxS (f : Fmt) (norm : Fl × Fl → Fl) : Storage where
   V := Fl × Fl
   T := Fl
   conv := norm
